@@ -51,6 +51,9 @@ class C19(Check):
         'trace lies in (0, 1e-6) are undecided; nothing is asserted about the value returned for a band without overlap',
         'filter_thru weighted-mean model compared only for polynomial (degree <= 4) log-wavelength solutions, where '
         'the cubic fit of the pixel size inside filter_thru is exact; response = second column (respt) of the tables',
+        'a pixel is masked iff mask != 0 on the mask as given (djs_maskinterp1: good = mask == 0): mask dtype and values '
+        'are drawn together - bool, i1..i8/u1..u8 flags incl. negative and high-bit-only 64-bit words (2**32, 2**40, '
+        '2**62, 2**63), f2/f4/f8 with fractions (0.25, 0.9, -0.5, 1e-3, 1e-300, 5e-324), inf and NaN (NaN != 0 is True)',
         'sdssflux2ab offsets c_b are read off the magnitude form of each case, not taken from the docstring',
         'whole-Angstrom wavelengths are also given as integer-dtype arrays (i2/u2/i4/u4/i8, big-endian, 1-d/2-d/0-d), '
         'Python and numpy integer scalars and Quantities built from integer arrays, each against the float64 answer; '
@@ -69,7 +72,9 @@ class C19(Check):
                          'ft_single_bright_pixel_traces', 'ft_bands_with_1_to_3_pixels', 'ft_inputs_unchanged',
                          'atv_repeat_calls', 'ab_repeat_calls', 'atv_integer_array_calls', 'atv_integer_2d_array_calls',
                          'atv_python_int', 'atv_numpy_int_scalar', 'atv_integer_0d_array', 'atv_integer_quantity',
-                         'atv_sequence_calls', 'ab_integer_calls', 'ft_integer_flux_cases')
+                         'atv_sequence_calls', 'ab_integer_calls', 'ft_integer_flux_cases',
+                         'ft_mask_fractional_float_pixels', 'ft_mask_high_bits_only_pixels', 'ft_mask_nan_inf_pixels',
+                         'ft_mask_negative_pixels', 'ft_mask_int8_int16_pixels')
     MIN_NONTRIVIAL = 20
 
     # ------------------------------------------------------------------ setup
@@ -225,6 +230,36 @@ class C19(Check):
                 'layout': rng.choice(['c', 'c', 'fortran', 'strided', 'readonly']),
                 'dtype': rng.choice(['f8', 'f8', 'f8', 'f4'])}
 
+    # "masked" is what the tree tests: djs_maskinterp1 uses good = (mask == 0), bad = (mask != 0), on the mask exactly as
+    # the caller gave it.  So every non-zero value of every dtype marks a masked pixel: fractions, denormals, NaN, inf,
+    # negative flags, flag words with only high bits set.  dtype AND value range are drawn together.
+    MASK_POOLS = [
+        ('bool', [True]),
+        ('u1', [1, 64, 128, 255]), ('i1', [1, -1, -128, 127]), ('i2', [1, 256, -32768, -1]), ('u2', [1, 32768, 65535]),
+        ('i4', [1, 2 ** 20, -1, -2 ** 31, 2 ** 30]), ('u4', [1, 2 ** 31, 2 ** 32 - 1]),
+        ('i8', [1, 64, -1, 2 ** 20]), ('u8', [1, 64, 2 ** 20]),
+        ('i8', [2 ** 32, 2 ** 40, 2 ** 62, -2 ** 32, 3 * 2 ** 32, -2 ** 63]),
+        ('u8', [2 ** 32, 2 ** 40, 2 ** 62, 2 ** 63, 2 ** 64 - 2 ** 32]),
+        ('i8', [2 ** 32, 1, 2 ** 40, -5]),
+        ('f8', [0.25, 0.9, -0.5, 1e-3, 1e-300, 5e-324, -1e-12]),
+        ('f4', [0.25, 0.9, -0.5, 1e-3, 1e-30]),
+        ('f2', [0.25, 0.5, -0.125]),
+        ('f8', [1.0, -1.0, 64.0, 0.5, 1e300, float('inf'), float('-inf')]),
+        ('f8', [float('nan'), 0.25, 1.0]),
+        ('f4', [float('nan'), 1.0]),
+    ]
+
+    def _gen_maskvals(self, rng):
+        m = rng.random()
+        if m < 0.22:
+            dt, pool = self.MASK_POOLS[rng.choice([12, 12, 13, 14])]       # fractional floats
+        elif m < 0.44:
+            dt, pool = self.MASK_POOLS[rng.choice([9, 10, 11])]            # 64-bit words, low 32 bits clear
+        else:
+            dt, pool = rng.choice(self.MASK_POOLS)
+        k = rng.randint(1, len(pool))
+        return dt, rng.sample(pool, k)
+
     @staticmethod
     def _gen_mask(rng, g, nT, nx):
         # mask: every trace keeps >= 1 good pixel
@@ -317,14 +352,14 @@ class C19(Check):
             return f * scale
         f1, f2 = mkflux(), mkflux()
         mask = self._gen_mask(rng, g, nT, nx)
-        mval = rng.choice([1, 1, 64, -1, 2 ** 20])
+        mdt, mvals = self._gen_maskvals(rng)
         garbage = rng.choice(['nan', 'inf', 'huge', 'random', 'neg'])
         return {'kind': 'ft', 'cls': cls, 'nT': nT, 'nx': nx, 'func': func, 'coeff': coeff, 'noise': noise,
                 'primary': 'waveimg' if noise is not None else rng.choice(['waveimg', 'wset']),
                 'toair': rng.random() < 0.4, 'f1': f1.tolist(), 'f2': f2.tolist(),
                 'a': rng.uniform(-3, 3), 'b': rng.uniform(-3, 3),
                 'const': rng.choice([1.0, -2.5, 0.0, 1.0e-17, 12345.678, rng.uniform(-10, 10)]) ,
-                'mask': mask.tolist(), 'mval': mval, 'maskdtype': rng.choice(['int', 'bool', 'uint8', 'float']),
+                'mask': mask.tolist(), 'maskdtype': mdt, 'mvals': mvals,
                 'garbage': garbage, 'lin_masked': rng.random() < 0.4, 'const_masked': rng.random() < 0.4,
                 'fdtype': rng.choice(['f8', 'f8', 'f8', '>f8', 'f4', 'i4', 'i2', 'i8'])}
 
@@ -433,13 +468,13 @@ class C19(Check):
             return f, fkind
         (f1, k1), (f2, k2) = mkflux(), mkflux()
         mask = self._gen_mask(rng, g, nT, nx)
+        mdt, mvals = self._gen_maskvals(rng)
         return {'kind': 'ft', 'cls': 'ft_spliced', 'nT': nT, 'nx': nx, 'func': None, 'coeff': None, 'noise': None,
                 'wave': wave.tolist() if not shared else [wave[0].tolist()], 'wkind': wkind, 'f1kind': k1, 'f2kind': k2,
                 'primary': 'waveimg', 'toair': rng.random() < 0.3, 'f1': f1.tolist(), 'f2': f2.tolist(),
                 'a': rng.uniform(-3, 3), 'b': rng.uniform(-3, 3),
                 'const': rng.choice([1.0, -2.5, 3.5, 1.0e-17, 12345.678, rng.uniform(-10, 10)]),
-                'mask': mask.tolist(), 'mval': rng.choice([1, 1, 64, -1]),
-                'maskdtype': rng.choice(['int', 'bool', 'uint8', 'float']),
+                'mask': mask.tolist(), 'maskdtype': mdt, 'mvals': mvals,
                 'garbage': rng.choice(['nan', 'inf', 'huge', 'random', 'neg']), 'lin_masked': rng.random() < 0.4,
                 'const_masked': rng.random() < 0.4, 'fdtype': rng.choice(['f8', 'f8', 'f8', '>f8', 'f4', 'i4', 'i2', 'i8'])}
 
@@ -893,7 +928,33 @@ class C19(Check):
         s2 = float(np.abs(v2).max()) or 1.0
         mask01 = np.array(case['mask'], dtype=int)
         good = mask01 == 0
-        if case['maskdtype'] == 'bool':
+        if case.get('mvals') is not None:
+            # masked pixel k of the image carries value mvals[k % len]; dtype and values as generated
+            vals = case['mvals']
+            mdt = np.dtype(case['maskdtype'])
+            mask = np.zeros((nT, nx), dtype=mdt)
+            bi = np.nonzero(~good)
+            for k in range(len(vals)):
+                sel = (bi[0][k::len(vals)], bi[1][k::len(vals)])
+                mask[sel] = np.array(vals[k]).astype(mdt) if mdt.kind != 'u' else np.uint64(vals[k]).astype(mdt)
+            nz = mask[~good]
+            # what the tree under test calls masked (mask != 0) must be what the case calls masked
+            if not ((mask != 0) == ~good).all():
+                out.fail('harness-error', 'mask values %r in dtype %s do not reproduce the mask pattern' % (vals, mdt))
+                return
+            if mdt.kind == 'f':
+                with np.errstate(all='ignore'):
+                    out.count('ft_mask_fractional_float_pixels', int((np.abs(nz) < 1).sum()))
+                    out.count('ft_mask_nan_inf_pixels', int((~np.isfinite(nz)).sum()))
+                    out.count('ft_mask_negative_pixels', int((nz < 0).sum()))
+            elif mdt.kind in 'iu':
+                if mdt.itemsize == 8:
+                    out.count('ft_mask_high_bits_only_pixels', int(((nz.astype('u8') & np.uint64(0xFFFFFFFF)) == 0).sum()))
+                if mdt.itemsize <= 2:
+                    out.count('ft_mask_int8_int16_pixels', int(nz.size))
+                if mdt.kind == 'i':
+                    out.count('ft_mask_negative_pixels', int((nz < 0).sum()))
+        elif case['maskdtype'] == 'bool':
             mask = mask01.astype(bool)
         elif case['maskdtype'] == 'uint8':
             mask = mask01.astype('u1')
